@@ -153,6 +153,10 @@ def run(ctx, params):
     try:
         config_fault(ctx)
         rng = ctx.rng
+        for label, t in anytrees.allowed_unknown_cases(gen):
+            ff, errs = judge_tree(ctx, t, "allowed-but-unknown child " + label)
+            ctx.count("allowed_unknown_child_cases")
+            emlkit.discard(t)
         for i in range(params["freeform"]):
             size = rng.choice([1, 2, 3, 5, 8, 15, 30, 60, 120])
             t = anytrees.freeform(rng, gen, size)
